@@ -452,6 +452,33 @@ impl Planner {
                 specs.push(s);
             }
         }
+        // B3d: lens spaces L(p, q) from the harness's own bipyramid construction
+        // (pi1 = Z_p known a priori; verified by dsx::manifold_check + own H1)
+        let pmax = if thorough { 24 } else { 16 };
+        for p in 3..=pmax {
+            for q in 1..=p / 2 {
+                if gcd(p, q) != 1 {
+                    continue;
+                }
+                let l = crate::gen::lens_space(p, q);
+                if crate::dsx::manifold_check(&l).is_err() || crate::homology::h1(&l).ok() != Some(vec![p as u64]) {
+                    continue;
+                }
+                let text = l.to_text();
+                let reps = if thorough { 30 } else { 3 };
+                for r in 0..reps {
+                    let (mut s, mut rng) = self.base_spec(&format!("L{}.{}/self", p, q), &text, Op::SimplifySelf);
+                    if r > 0 {
+                        s.cxf.push(Xf::Shuffle(rng.next_u64()));
+                    }
+                    s.repr = Self::c16_repr(&mut rng);
+                    s.expect = Expect::SameAsInput;
+                    s.deep = r == 0;
+                    self.perturb(&mut s, &mut rng, true);
+                    specs.push(s);
+                }
+            }
+        }
         // B4: branch-free members of G are closed manifolds themselves
         for e in corpus.g.iter().take(corpus.extra_from) {
             let s0 = match Sym::parse(&e.text) {
@@ -636,4 +663,12 @@ pub fn sweep_counts(corpus: &Corpus, tier: Tier) -> CoverCounts {
         }
     }
     CoverCounts::compute(&entries)
+}
+
+fn gcd(a: usize, b: usize) -> usize {
+    if b == 0 {
+        a
+    } else {
+        gcd(b, a % b)
+    }
 }
